@@ -106,7 +106,7 @@ func (s *c04Stream) foldBombs(all bool) {
 	// fold-cost: constant expressions that are cheap to write and expensive to evaluate. The optimizer evaluates them
 	// during Generate, so the time Generate needs is not bounded by the input (known finding); without the
 	// optimizer Generate is fast (control).
-	for _, p := range []string{"numbers(20000000).sum()+a", "let c=numbers(10000000).map(x->x*2).sum(); c+a"} {
+	for _, p := range []string{"numbers(300000000).sum()+a", "let c=numbers(150000000).map(x->x*2).sum(); c+a"} {
 		for _, noopt := range []bool{false, true} {
 			c := c04Plain("value", false, false, "fold-cost", p)
 			c.NoOpt = noopt
